@@ -450,14 +450,64 @@ Fixpoint dec_pairs (n : nat) (l : list Z) : list (nat * str) * list Z :=
             end
   end.
 
+(* ---- option NAMES and sources filled BY NAME (ParsedValues::add(const std::string& name, const std::string& value)) ----
+   The harness names option id  limit (alias l) / level / length / lim (alias m)  for id 0..3 and  o<id>  otherwise: names in a prefix relation.
+   OptionContext::index_ maps every long name and, for an option with an alias character a, the key "-a" to the option's index;
+   ParsedValues::add(name, value) = tryFind(name.c_str(), find_name): lower_bound(k) with it->first == k, i.e. the pair is added iff the key
+   (up to its first NUL byte: c_str()) EQUALS a key of the index; every other key - a strict prefix of a name (unambiguous or not), an
+   extension of a name, the bare alias character, an unknown key, the empty key - is dropped silently (nothing thrown).  *)
+Fixpoint dec_digits (fuel : nat) (n : Z) (acc : list Z) : list Z :=        (* std::to_string of n >= 0 (as V.Lib.Dec.print_nat) *)
+  match fuel with
+  | O => acc
+  | S f => if n <? 10 then (48 + n) :: acc else dec_digits f (n / 10) ((48 + n mod 10) :: acc)
+  end.
+Definition dec_nat (n : Z) : list Z := dec_digits (S (Z.to_nat (Z.log2 n))) n [].
+Definition opt_name (id : nat) : str :=
+  match id with
+  | 0%nat => [108; 105; 109; 105; 116]            (* limit *)
+  | 1%nat => [108; 101; 118; 101; 108]            (* level *)
+  | 2%nat => [108; 101; 110; 103; 116; 104]       (* length *)
+  | 3%nat => [108; 105; 109]                      (* lim *)
+  | _ => 111 :: dec_nat (Z.of_nat id)             (* o<id> *)
+  end.
+Definition opt_alias (id : nat) : option Z :=
+  match id with 0%nat => Some 108 | 3%nat => Some 109 | _ => None end.
+Fixpoint cstr (s : str) : str :=                  (* std::string(name.c_str()) *)
+  match s with [] => [] | c :: r => if c =? 0 then [] else c :: cstr r end.
+Definition is_key (id : nat) (k : str) : bool :=
+  list_eqb k (opt_name id) || match opt_alias id with Some a => list_eqb k [45; a] | None => false end.
+(* the option a by-name key denotes in a context of n options (declaration order; the keys of a context are pairwise different) *)
+Definition resolve (n : nat) (key : str) : option nat := find (fun id => is_key id (cstr key)) (seq 0 n).
+(* one pair of a source: added through the option pointer (inl) or by name (inr key value) *)
+Definition npair := (nat * str + str * str)%type.
+Definition denote_pair (n : nat) (p : npair) : list (nat * str) :=
+  match p with
+  | inl q => [q]
+  | inr (k, v) => match resolve n k with Some id => [(id, v)] | None => [] end
+  end.
+Definition denote_src (n : nat) (src : list npair) : list (nat * str) := flat_map (denote_pair n) src.
+
+Fixpoint dec_npairs (n : nat) (l : list Z) : list npair * list Z :=
+  match n with
+  | O => ([], l)
+  | S n' => match l with
+            | 0 :: o :: r => let '(s, r1) := take_str r in let '(ps, r2) := dec_npairs n' r1 in (inl (Z.to_nat o, s) :: ps, r2)
+            | _ :: r => let '(k, r1) := take_str r in let '(s, r2) := take_str r1 in
+                        let '(ps, r3) := dec_npairs n' r2 in (inr (k, s) :: ps, r3)
+            | [] => ([], [])
+            end
+  end.
+
 (* OAdd ids     = ParsedOptions::add(name) for each id (any name: an option of the context or a FOREIGN name, id >= number of options);
    OAssign2 src = ParsedOptions::assign of a source that belongs to a SECOND context on the same ParsedOptions object; the second
                   context of the harness holds FOREIGN_OPTS plain std::string options named o<n> .. o<n+FOREIGN_OPTS-1> (n = number of
                   options of the first context) - exactly what [desc_of] / [kind_of] answer outside the first context.
+   OAssignN excl src = as OAssign, every pair of the source added through the option pointer or BY NAME ([denote_src]).
    ORun         = a NEW RUN: option group, context and all Value objects are built again from the same descriptors, fresh ParsedOptions;
                   variables / ValueMap / notifier log survive ([fresh_cells]). *)
 Inductive op := OAssign (excl : option (list nat)) (src : list (nat * str)) | ODefaults | OReset
-              | OAdd (ids : list nat) | OAssign2 (src : list (nat * str)) | ORun.
+              | OAdd (ids : list nat) | OAssign2 (src : list (nat * str)) | ORun
+              | OAssignN (excl : option (list nat)) (src : list npair).
 Definition FOREIGN_OPTS : nat := 6.
 
 Fixpoint dec_ops (fuel : nat) (l : list Z) : list op :=
@@ -477,6 +527,13 @@ Fixpoint dec_ops (fuel : nat) (l : list Z) : list op :=
       | 4 :: k :: r => let '(ids, r1) := dec_ids (Z.to_nat k) r in OAdd ids :: dec_ops f r1
       | 5 :: np :: r => let '(ps, r1) := dec_pairs (Z.to_nat np) r in OAssign2 ps :: dec_ops f r1
       | 6 :: r => ORun :: dec_ops f r
+      | 7 :: 0 :: np :: r => let '(ps, r1) := dec_npairs (Z.to_nat np) r in OAssignN None ps :: dec_ops f r1
+      | 7 :: _ :: ne :: r =>
+          let '(ex, r1) := dec_ids (Z.to_nat ne) r in
+          match r1 with
+          | np :: r2 => let '(ps, r3) := dec_npairs (Z.to_nat np) r2 in OAssignN (Some ex) ps :: dec_ops f r3
+          | [] => []
+          end
       | _ => []
       end
   end.
@@ -523,6 +580,10 @@ Fixpoint run_ops (parsed : list nat) (cs : nat -> ccell) (ops : list op) : list 
       let '(e, p, cs', f) := assign_source _ _ desc_of c_parser c_store c_fail parsed None cs src' in
       obs_err e ++ [b2z f] ++ obs_state p cs' ++ run_ops p cs' r
   | ORun :: r => run_ops [] (fresh_cells _ _ c_newrun cs) r                            (* no observation of its own *)
+  | OAssignN excl src :: r =>
+      let src' := filter (fun p => (fst p <? length copts)%nat) (denote_src (length copts) src) in
+      let '(e, p, cs', f) := assign_source _ _ desc_of c_parser c_store c_fail parsed excl cs src' in
+      obs_err e ++ [b2z f] ++ obs_state p cs' ++ run_ops p cs' r
   end.
 End Run.
 
